@@ -109,7 +109,15 @@ def constructs(seed=0):
                  D.ns('sub', [D.var(T('int', 1), 'kSub', '42'), D.var(T('double'), 'plain')])]
     c['serial'] = [D.cls('Se', [D.ctor('Se'), D.method(single(T('void')), 'serialize', []),
                                 D.method(single(T('void')), 'print', [arg(T('string', 1, '&'), 's', '""')], 1)]),
-                   D.cls('Sp', [D.method(single(T('void')), 'serializable', [], 1), D.method(single(T('void')), 'print', [], 1)])]
+                   D.cls('Sp', [D.method(single(T('void')), 'serializable', [], 1), D.method(single(T('void')), 'print', [], 1)]),
+                   # a serializing template with two arguments (its export needs a typedef'd alias)
+                   D.cls('Sw', [D.ctor('Sw'), D.method(single(T('void')), 'serialize', [])],
+                         tpl=[D.tparam('A', [T('int'), T('ns::Pose')]), D.tparam('B', [T('double'), T('ns::Rot')])])]
+    # print declared static, with and without arguments, next to an ordinary one
+    c['static_print'] = [D.cls('Ps', [D.ctor('Ps'), D.static(single(T('void')), 'print', [arg(T('string', 1, '&'), 'prefix')])]),
+                         D.cls('Pt', [D.static(single(T('void')), 'print', [])]),
+                         D.cls('Pu', [D.method(single(T('void')), 'print', [arg(T('string', 1, '&'), 's'), arg(T('int'), 'n', '2')], 1),
+                                      D.method(single(T('int')), 'printCount', [], 1), D.static(single(T('string')), 'printName', [arg(T('int'), 'i')])])]
     c['same_name_enums'] = [D.ns('n1', [D.cls('A', [D.enum('E', ['X']), D.ctor('A')])]),
                             D.ns('n2', [D.cls('A', [D.enum('E', ['Y']), D.ctor('A')])])]
     c['lowercase_names'] = [D.cls('Int', [D.enum('E', ['X']), D.ctor('Int')]),
